@@ -421,7 +421,7 @@ def _roles(ctx, w, wcall, params):
     for p, v in list(passed.items()):
         if isinstance(v, ast.Name):
             defs = [s.value for s in ast.walk(w.node) if isinstance(s, ast.Assign) and any(isinstance(t, ast.Name) and t.id == v.id for t in s.targets)]
-            if len(defs) == 1 and isinstance(defs[0], (ast.Call, ast.JoinedStr)):
+            if len(defs) == 1 and isinstance(defs[0], (ast.Call, ast.JoinedStr, ast.BinOp)):
                 passed[p] = defs[0]
     wp = [p for p in w.params if p not in ("self",)]
     # the wrapper's own parameters: (tup, handlers, group, next_call) identified by use
